@@ -525,3 +525,73 @@ def dotted(expr: ast.AST) -> Optional[str]:
         parts.append(expr.id)
         return '.'.join(reversed(parts))
     return None
+
+
+def eval_const_function(repo, module, fdef, args: list, kwargs: dict, depth: int = 0):
+    """Partial evaluation of a small helper whose inputs are constants: straight-line assignments, += on
+    strings/lists, for-loops over constant iterables, if with constant tests, list.append/extend, return.
+    Returns ('value', v) or ('call', ast.Call, env) when the function returns a call the folder does not
+    evaluate (e.g. re.compile(...)) - the caller interprets that call with the environment."""
+    a = fdef.args
+    env: dict = {}
+    pos = [p.arg for p in a.posonlyargs + a.args]
+    for p, v in zip(pos, args):
+        env[p] = v
+    if a.vararg:
+        env[a.vararg.arg] = tuple(args[len(pos):])
+    elif len(args) > len(pos):
+        raise Unfoldable('too many arguments')
+    for k, v in kwargs.items():
+        env[k] = v
+    names = pos
+    for nm, d in zip(names[len(names) - len(a.defaults):], a.defaults):
+        if nm not in env:
+            env[nm] = fold(d, {}, repo, module)
+
+    class Ret(Exception):
+        def __init__(self, node):
+            self.node = node
+
+    def run(stmts):
+        for st in stmts:
+            if isinstance(st, ast.Expr) and isinstance(st.value, ast.Constant):
+                continue
+            if isinstance(st, ast.Assign):
+                val = fold(st.value, env, repo, module)
+                for t in st.targets:
+                    _bind(t, val, env)
+            elif isinstance(st, ast.AnnAssign) and st.value is not None:
+                _bind(st.target, fold(st.value, env, repo, module), env)
+            elif isinstance(st, ast.AugAssign) and isinstance(st.target, ast.Name) and isinstance(st.op, ast.Add):
+                env[st.target.id] = env[st.target.id] + fold(st.value, env, repo, module)
+            elif isinstance(st, ast.For):
+                for item in fold(st.iter, env, repo, module):
+                    _bind(st.target, item, env)
+                    run(st.body)
+            elif isinstance(st, ast.If):
+                run(st.body if fold(st.test, env, repo, module) else st.orelse)
+            elif isinstance(st, ast.Expr) and isinstance(st.value, ast.Call) and isinstance(st.value.func, ast.Attribute) \
+                    and isinstance(st.value.func.value, ast.Name) and st.value.func.attr in ('append', 'extend'):
+                lst = env[st.value.func.value.id]
+                v = fold(st.value.args[0], env, repo, module)
+                if st.value.func.attr == 'append':
+                    lst.append(v)
+                else:
+                    lst.extend(v)
+            elif isinstance(st, ast.Return):
+                raise Ret(st)
+            elif isinstance(st, ast.Pass):
+                continue
+            else:
+                raise Unfoldable(f'statement {type(st).__name__} in helper {fdef.name}')
+    try:
+        run(fdef.body)
+    except Ret as r:
+        v = r.node.value
+        try:
+            return ('value', fold(v, env, repo, module), env)
+        except Unfoldable:
+            if isinstance(v, ast.Call):
+                return ('call', v, env)
+            raise
+    raise Unfoldable(f'helper {fdef.name} does not return')
